@@ -278,3 +278,20 @@ META["C20"] = {
         "std::cout is captured by replacing its stream buffer; files are written below /verif/build/out/tmp",
     ],
 }
+
+META["C04"] = {
+    "level": "model_checking",
+    "parts": 6,
+    "tiers": {
+        "quick": {"shards": 6, "deadline_s": 500,
+                  "bounds": "mpi_plain / mpi_vegas / mpi_multi_channel (user weights with a disabled channel) x calls lists [0],[1],[2],[3],[5],[7,3],[4,4,4],[2,0,5],[1,1,1,1],[33],[64,31] x {dyadic integrand (exact sums), smooth integrand} x {no distribution, one} x {no target, target 0.35}; worlds 1,2,3 with every reduction order of every collective (P! left folds + tree, pruned by distinct reduced bytes); worlds 4,5,8,16,33 with ascending / descending / tree order; engines script, mt19937, ranlux24, minstd_rand; 3 types"},
+        "thorough": {"shards": 6, "deadline_s": 3000, "bounds": "as quick with every reduction order also for 4 ranks and every world size 5..33 in the three canonical orders"},
+    },
+    "rule": "stateless exploration of the MPI environment's choices: for each collective the environment chooses the order in which the ranks' contributions are combined; ranks are deterministic functions of the results received, so orders with identical reduced bytes have identical futures and one representative is continued; states = complete executions checked, transitions = rank-set executions (one per explored prefix); traces_validated_against_impl = complete executions whose per-rank logs were compared with the serial iteration of the tree under test",
+    "binding": "ranks run the real mpi_* integrators against harness/mpishim/mpi.h; the environment model (a collective completes when all ranks arrive with the same count/datatype; result = element-wise sum in an environment-chosen order, same bytes to every rank) is ~100 lines in harness/mpienv.hpp; the serial side of every comparison is the library's own *_iteration",
+    "assumptions": [
+        "ranks are executed one after another in one address space by re-execution (the library has no global mutable state); a rank returning while another waits, or different count/datatype in the same collective, is reported as the hang it would be under a real MPI",
+        "only MPI_Allreduce with MPI_SUM, MPI_Comm_rank and MPI_Comm_size are modelled (all the library uses)",
+        "sums agree with the serial ones within (P+4) eps x sum of magnitudes; bit-identical for PLAIN and first VEGAS iterations of the dyadic integrand",
+    ],
+}
